@@ -139,6 +139,8 @@ class NameSanitizer:
             # fallback: split on non-alphanumerics
             words = re.split(r"\W+", name)
         module = "_".join(word.lower() for word in words if word)
+        if not module:  # e.g. name was empty or consisted only of symbols such as "$" or "{ "
+            module = "unnamed"
         # If it starts with a digit, prefix with underscore
         if module and module[0].isdigit():
             module = "_" + module
@@ -206,6 +208,8 @@ class NameSanitizer:
         name = re.sub(r"[^0-9a-zA-Z_]", "_", name)
         # Lowercase and collapse multiple underscores
         name = re.sub(r"_+", "_", name).strip("_").lower()
+        if not name:  # e.g. name was empty, symbol-only ("$") or entirely non-ASCII
+            name = "unnamed"
         # If it starts with a digit, prefix with underscore
         if name and name[0].isdigit():
             name = "_" + name
